@@ -54,6 +54,10 @@ func verifFlagSets() []verifFlags {
 		{[]string{"-f", "patch"}, []Metadata{SetPrecision(0)}, "patch", false},
 		{[]string{"-f", "merge"}, []Metadata{MERGE, SetPrecision(0)}, "merge", false},
 		{[]string{"-yaml"}, []Metadata{SetPrecision(0)}, "jd", true},
+		// combinations: each flag alone is covered above
+		{[]string{"-mset", "-setkeys", "a"}, []Metadata{MULTISET, Setkeys("a"), SetPrecision(0)}, "jd", false},
+		{[]string{"-yaml", "-f", "patch"}, []Metadata{SetPrecision(0)}, "patch", true},
+		{[]string{"-yaml", "-f", "merge"}, []Metadata{MERGE, SetPrecision(0)}, "merge", true},
 	}
 }
 
@@ -126,6 +130,7 @@ func verifV1CLICheck(a, b JsonNode, fi int) string {
 		return fmt.Sprintf("%v: stdin run differs: exit %d %q vs %d %q", base, rs.exit, rs.stdout, r.exit, r.stdout)
 	}
 	fo := filepath.Join(dir, "o")
+	os.WriteFile(fo, verifStaleFile(), 0o644) // an older, longer output is already there
 	ro := verifExec(bin, "", append(append([]string{"-o", fo}, base...), fa, fb)...)
 	got, _ := os.ReadFile(fo)
 	if ro.exit != r.exit || ro.stdout != "" || (r.exit != 2 && string(got) != r.stdout) {
@@ -276,7 +281,7 @@ func verifV1CLITranslate(a, b JsonNode, mode int) string {
 			return fmt.Sprintf("-v2=false -t %s from stdin: exit %d stdout %q, library %q", j.kind, rs.exit, rs.stdout, j.want)
 		}
 		fo := filepath.Join(dir, "o")
-		os.Remove(fo)
+		os.WriteFile(fo, verifStaleFile(), 0o644) // an older, longer output is already there
 		ro := verifExec(bin, "", "-v2=false", "-o", fo, "-t", j.kind, f)
 		got, _ := os.ReadFile(fo)
 		if ro.exit != 0 || ro.stdout != "" || string(got) != j.want {
@@ -284,4 +289,13 @@ func verifV1CLITranslate(a, b JsonNode, mode int) string {
 		}
 	}
 	return ""
+}
+
+// verifStaleFile: the previous content of an -o file (longer than any output of these runs).
+func verifStaleFile() []byte {
+	b := make([]byte, 400000)
+	for i := range b {
+		b[i] = "stale output\n"[i%13]
+	}
+	return b
 }
